@@ -169,6 +169,7 @@ def run_group(spec: Dict[str, Any]) -> Dict[str, Any]:
         c0, s0 = _Z3["checks"], _Z3["seconds"]
         core.TWIN = False
         core.TALLY.clear()
+        core.OBSERVED.clear()
         core.SKIPPED[:] = []
         msgs, stats = _analyze(fn, spec["cond_timeout"], spec["path_timeout"])
         status, text = _classify(msgs)
@@ -181,6 +182,7 @@ def run_group(spec: Dict[str, Any]) -> Dict[str, Any]:
             tally=len(core.TALLY),
             tally_samples=[list(v) if isinstance(v, tuple) else v for v in sorted(core.TALLY, key=repr)[:3]],
             skipped_known=sorted(set(i for i, _ in core.SKIPPED)),
+            observed=dict(core.OBSERVED),
         )
         if status == "refuted":
             out["call"] = parse_call(text)
@@ -341,6 +343,14 @@ def discharge_z3(obligs: List[Tuple[str, Any]]) -> List[Dict[str, Any]]:
 
 
 # --------------------------------------------------------------------------- main
+def _sum_observed(results):
+    tot: Dict[str, int] = {}
+    for r in results:
+        for k, v in ((r or {}).get("observed") or {}).items():
+            tot[k] = tot.get(k, 0) + int(v)
+    return tot
+
+
 def fn_digest(objs) -> List[Dict[str, str]]:
     out = []
     for o in objs:
@@ -543,6 +553,7 @@ def main(argv=None) -> int:
         "direct_z3_obligations": len(e2_results),
         "direct_z3_discharged": n_e2_ok,
         "decision_vectors_run": sum(int(r.get("tally", 0)) for r in results if r),
+        "observed": _sum_observed(results),
         "selftest": _jsonable(selftest_info),
         "groups": [
             {k: _jsonable(r.get(k)) for k in ("name", "status", "num_paths", "z3_checks", "z3_seconds", "tally",
